@@ -36,6 +36,7 @@ continuation):
     ...
   head:                     ghost text at the start of the body
   tail:                     ghost text at the end of the body (unit fns only)
+  tailexpr:                 ghost text immediately before the body's trailing expression (position found syntactically, no statement text)
   loop 1:
     invariant
       [C15 inv] self.inv()
@@ -202,7 +203,7 @@ class FnSpec:
         self.ghost_tag = {}
 
 
-SECTION_RE = re.compile(r'^(props|safety|attr|mode|spectail|sigsub|bodysub\?|bodysub|ret|part|sig|requires|ensures|head|tail|loop\s+\d+|after\s+".*"\s*(?:#\d+)?|before\s+".*"\s*(?:#\d+)?|known\s+\w+)\s*:\s*(.*)$')
+SECTION_RE = re.compile(r'^(props|safety|attr|mode|spectail|tailexpr|sigsub|bodysub\?|bodysub|ret|part|sig|requires|ensures|head|tail|loop\s+\d+|after\s+".*"\s*(?:#\d+)?|before\s+".*"\s*(?:#\d+)?|known\s+\w+)\s*:\s*(.*)$')
 TAG_RE = re.compile(r'^\[([A-Z0-9, ]*?)(?:\s+([A-Za-z0-9_.-]+))?\]\s*(.*)$', re.S)
 
 
@@ -299,6 +300,8 @@ def parse_fn_block(header, lines):
             fn.head += body
         elif key == 'tail':
             fn.tail += body
+        elif key == 'tailexpr':
+            fn.tailexpr = getattr(fn, 'tailexpr', []) + body
         elif key.startswith('loop'):
             n = int(key.split()[1])
             fn.loops[n] = parse_loop(body, fn, n, counter)
@@ -687,6 +690,27 @@ class Generator:
             inserts.append((0, '\n' + ghost_text(fn.head) + '\n', 'ghost'))
         if fn.tail:
             inserts.append((len(body.rstrip()), '\n' + ghost_text(fn.tail) + '\n', 'ghost'))
+        if getattr(fn, 'tailexpr', None):
+            # ghost text immediately before the body's trailing expression, found syntactically (no statement text involved):
+            # the position after the last top-level `;`, or after a top-level `}` that closes a block statement
+            depth, cand = 0, 0
+            end = len(bm.rstrip())
+            k = 0
+            while k < end:
+                ch = bm[k]
+                if ch in '([{':
+                    depth += 1
+                elif ch in ')]}':
+                    depth -= 1
+                    if ch == '}' and depth == 0:
+                        rest = bm[k + 1:end].lstrip()
+                        if rest and not re.match(r'^(\.|\?|else\b|,|\)|;|[-+*/%&|^<>=!])', rest):
+                            cand = k + 1
+                elif ch == ';' and depth == 0:
+                    if bm[k + 1:end].strip():
+                        cand = k + 1
+                k += 1
+            inserts.append((cand, '\n' + ghost_text(fn.tailexpr) + '\n', 'ghost'))
         for where, text, nth, glines in fn.anchors:
             a, b, fuzzy = find_anchor(body, bm, text, nth)
             if fuzzy:
